@@ -667,6 +667,10 @@ def run(ck: Checker) -> None:
     ck.guard("R-TYPES-ALL", lambda: r_types_all(ck))
     ck.guard("R-CAPTURE", lambda: r_capture(ck))
     ck.guard("R-CAPTURE", lambda: r_ctx_flow(ck))
+    from . import state_rules as S8b
+    ck.guard("R-MULTI-ORDER", lambda: S8b.r_iter_once(ck, "R-MULTI-ORDER", (PAT,)))  # `rules` may be any iterable, a one-shot one included
+    from .c17 import r_every_subtree_visited
+    ck.guard("R-PURE-MATCH", lambda: r_every_subtree_visited(ck, "R-PURE-MATCH"))
     from . import state_rules as S_
     ck.guard("R-PURE-MATCH", lambda: S_.r_unstable_key(ck, "R-PURE-MATCH", [(PAT, "BaseMatcher"), (PAT, "NodeMatcher._match"), (PAT, "SequenceMatcher"), (PAT, "ValueMatcher"), (PAT, "RegexMatcher"), (PAT, "VarMatcher"), (PAT, "AnyMatcher"), (PAT, "AlternativeMatcher"), (PAT, "MultiPatternMatcher.match")], "what a pattern matches does not depend on earlier matches"))
     ck.guard("R-SINGLETON-STATE", lambda: r_singleton_state(ck, matcher_classes(ck)))
